@@ -22,6 +22,25 @@ def big_loss_base(rnd, ffr=False):
     return s
 
 
+def wide_loss_base(rnd, ffr=False):
+    """many unknowns around the word boundaries of the bit rows (63..66, 72, 127..130 lost fragments), random or one contiguous outage"""
+    blk, sz = 256, rnd.choice([1, 1, 2])
+    slot = session.DRO + 8192
+    l = rnd.choice([63, 64, 65, 65, 66, 68, 72, 127, 128, 129, 130, 134])
+    n = l + rnd.choice([1, 3, 20, 60, 100])
+    cap = session.max_l(slot, sz)
+    if rnd.random() < 0.5:
+        lost = set(rnd.sample(range(1, n + 1), l))
+    else:
+        a = rnd.randint(1, n - l + 1); lost = set(range(a, a + l))
+    img = ts004.make_image(rnd, n, sz)
+    seq = [i for i in range(1, n + 1) if i not in lost] + list(range(n + 1, n + 1 + l + 12))
+    s = session.Scn(4, slot, blk)
+    s.meta = dict(n=n, sz=sz, cap=cap, img=img, seq=seq, mode="wide-loss", lost=sorted(lost), ffr=ffr)
+    s.meta["start_op"] = s.add("start %d %d" % (sz, n))
+    return s
+
+
 def wide_window_base(rnd, ffr=False):
     """more than 256 data fragments (the segment status table is paged in 256-entry strides on recovery) with one
        stride-aligned window of the table left completely unwritten (late join / long outage) and losses behind it"""
